@@ -74,10 +74,17 @@ instance exceptDecEq {ε α : Type} [DecidableEq ε] [DecidableEq α] : Decidabl
   | .pair a b => letI := a.decEq; letI := b.decEq; inferInstanceAs (DecidableEq (a.interp × b.interp))
 
 /-- Rust `==` of a shape, chosen as instance resolution chooses it for the catalogued types:
-IEEE equality on `f64`, structural equality otherwise. -/
+IEEE equality on `f64`, structural (`derive(PartialEq)`) on lists, options, results and tuples, so a slice that
+contains a NaN is not `==` itself. -/
 @[instance_reducible] def Ty.hasEqv : (t : Ty) → HasEqv t.interp
   | .f64 => inferInstanceAs (HasEqv F64)
-  | t => @eqvOfDecEq _ t.decEq
+  | .nat => inferInstanceAs (HasEqv Nat)
+  | .unit => inferInstanceAs (HasEqv Unit)
+  | .u8 => inferInstanceAs (HasEqv UInt8)
+  | .list t => letI := t.hasEqv; inferInstanceAs (HasEqv (List t.interp))
+  | .opt t => letI := t.hasEqv; inferInstanceAs (HasEqv (Option t.interp))
+  | .res ok err => letI := ok.hasEqv; letI := err.hasEqv; inferInstanceAs (HasEqv (Except err.interp ok.interp))
+  | .pair a b => letI := a.hasEqv; letI := b.hasEqv; inferInstanceAs (HasEqv (a.interp × b.interp))
 
 /-! ### index containers -/
 
